@@ -39,7 +39,7 @@ var toolPool = []string{"ls", "tar", "git", "docker", "grep", "find", "curl", "d
 	"cat", "zip", "unzip", "kill", "ps", "chmod", "mytool", "Get-ChildItem", "pipeview"}
 var platPool = [][]string{nil, nil, {"linux"}, {"macos"}, {"windows"}, {"cross-platform"}, {"linux", "macos"}, {"darwin"},
 	{"powershell"}, {"bash"}, {"LINUX"}, {"Cross-Platform"}, {"plan9"}, {"windows", "cross-platform"}, {"cmd"}, {"unix", "plan9"},
-	{"Kinux"}, {"macos-arm"}, {"linux-only"}}
+	{"Kinux"}, {"macos-arm"}, {"linux-only"}, {"android"}, {"freebsd", "solaris"}}
 
 func rword(r *Rng) string {
 	switch x := r.Intn(100); {
@@ -160,7 +160,7 @@ func genOptions(r *Rng) database.SearchOptions {
 	o.UseNLP = r.Bool()
 	o.TopTermsCap = Pick(r, []int{0, 0, 0, 3, 5, 8, 12, -2})
 	o.AllPlatforms = r.Chance(1, 7)
-	o.Platforms = append([]string(nil), Pick(r, [][]string{nil, nil, nil, {"windows"}, {"linux", "macos"}, {"darwin"}, {"LINUX"}, {"macos"}})...)
+	o.Platforms = append([]string(nil), Pick(r, [][]string{nil, nil, nil, {"windows"}, {"linux", "macos"}, {"darwin"}, {"LINUX"}, {"macos"}, {"linux", "macos", "windows"}})...)
 	o.NoCrossPlatform = r.Chance(1, 7)
 	return o
 }
